@@ -273,8 +273,11 @@ def run_check(pid, tier, seed, replay=None):
                              "\n".join(json.dumps(e) for e in history_prefix(events, line)) + "\n")
         lib.report_violation(pid, rp, body)
         rc = 1
-    for prop, path, line, body in run.foreign[:5]:
-        lib.log("note: mismatch attributed to %s (not %s), ignored here: %s" % (prop, pid, body[:300]))
+    for i, (prop, path, line, body) in enumerate(run.foreign[:5]):
+        events = lib.read_ndjson(path)
+        rp = lib.save_replay(pid, "foreign-%s-%d-seed%d.ndjson" % (prop, i, seed),
+                             "\n".join(json.dumps(e) for e in history_prefix(events, line)) + "\n")
+        lib.log("note: mismatch attributed to %s (not %s), ignored here (%s): %s" % (prop, pid, rp, body[:300]))
 
     # vacuity guards
     if not replay:
